@@ -140,6 +140,35 @@ Proof.
   - destruct B as (_ & _ & B3). rewrite H in A. lia.
 Qed.
 
+(* the mux's peek (io.ReadFull of one byte) yields the stream's real first byte whatever the chunking,
+   zero-length reads included, leaves the rest of the stream for the wrapper, and fails only on a
+   stream without any byte *)
+Lemma mux_peek_spec : forall s : c18_script,
+  match c18_mux_peek s with
+  | Some (b, s') => concat s = b :: concat s'
+  | None => concat s = []
+  end.
+Proof.
+  intros s. unfold c18_mux_peek. pose proof (c18_read_full_spec s 1) as H.
+  destruct (c18_read_full 1 s) as [[r s']|].
+  - destruct H as (Hr & Hs & Hl). destruct (concat s) as [|x l] eqn:E; [cbn in Hl; lia|].
+    cbn in Hr, Hs. subst r. rewrite Hs. reflexivity.
+  - destruct (concat s); [reflexivity | cbn in H; lia].
+Qed.
+
+Lemma detection_byte_is_first_byte : forall (s : c18_script),
+  match c18_mux_peek s with
+  | Some (b, s') =>
+      concat s = b :: concat s' /\
+      forall sizes out r', c18_drain sizes (mkPre [b] s') = (out, r') -> out ++ c18_pre_remaining r' = concat s
+  | None => concat s = []
+  end.
+Proof.
+  intros s. pose proof (mux_peek_spec s) as H.
+  destruct (c18_mux_peek s) as [[b s']|]; [|exact H].
+  split; [exact H|]. intros sizes out r' D. apply c18_drain_spec in D. rewrite D, H. reflexivity.
+Qed.
+
 Lemma first_byte_preserved : forall (b : byte) (stream : c18_script) (sizes : list N) out r',
   c18_drain sizes (mkPre [b] stream) = (out, r') ->
   out ++ c18_pre_remaining r' = b :: concat stream.
